@@ -170,7 +170,7 @@ def _behaviour(obj, fam):
         return {
             "interp_genpos between markers": _call(lambda: obj.interp_genpos(ic, ip)),
             "interp_genpos beyond the map ends": _call(lambda: obj.interp_genpos(bc, bp)),
-            "interp_gmap between markers": _call(lambda: obj.interp_gmap(ic, ip)),
+            "interp_gmap between markers": _call(lambda: obj.interp_gmap(ic, ip, ip + 1) if fam == "egmap" else obj.interp_gmap(ic, ip)),
             "gdist1p between markers": _call(lambda: obj.gdist1p(ic, ip)),
             "gdist2p between markers": _call(lambda: obj.gdist2p(ic, ip)),
             "gdist1p beyond the map ends": _call(lambda: obj.gdist1p(bc, bp)),
